@@ -459,6 +459,15 @@ GradOf(th) ==
                                      ELSE TableOf(pool, i, 2)]]
 Grads == LET s == SetToSeqAny(ThetaSel) IN [n \in 1..Len(s) |-> GradOf(s[n])]
 
+(* exact first partial derivatives of base circuit 1 w.r.t. its continuous inputs (C13:   *)
+(* gradients w.r.t. inputs), as the denotation of the term differentiate(1, order 1):      *)
+(* per output, one entry per variable of its scope in increasing id, then the output       *)
+XGrads ==
+  IF GradMod = 0 \/ NB = 0 \/ ~(InputKindsOf(1) \subseteq {"poly"}) THEN <<>>
+  ELSE LET sc == OutScopes(Pool, 1)
+           pool2 == Append(Pool, [op |-> "differentiate", a |-> 1, k |-> 1]) IN
+       <<[scopes |-> [o \in 1..Len(sc) |-> SetToSeq(sc[o])], table |-> TableOf(pool2, NP + 1, 1)]>>
+
 (* marginals of base circuit 1 over every variable subset, indexed by bitmask (bit v-1 = variable v) *)
 MaskSet(m) == {v \in 1..V : (m \div IPow(2, v - 1)) % 2 = 1}
 QTables ==
@@ -500,6 +509,7 @@ Behaviour ==
    expect |-> [i \in 1..NP |-> ExpectOf(Pool, i)],
    hist |-> HistJson,
    grads |-> Grads,
+   xgrads |-> XGrads,
    zerorows |-> ZeroRows,
    qtables |-> QTables]
 
